@@ -158,6 +158,9 @@ class Problem:
                 pk = {"affine_transform": "affine" in pre, "bounded_to_unbounded": ("logit" in pre or "probit" in pre)}
                 if "probit" in pre:
                     pk["bounded_transform"] = "probit"
+                if pk["bounded_to_unbounded"] and case["seed"] % 2 == 0:
+                    # a wide clipping margin of the bounded map: particles within 20% of a bound are moved by the round trip
+                    pk["eps"] = 0.2
                 kw["preconditioning_kwargs"] = _shared("preconditioning_kwargs", pk)
         elif pre == "default":
             kw["preconditioning"] = "default"
